@@ -25,6 +25,7 @@ OPTS = {'timeout_ms': 30000}
 
 def instances(tier, seed):
     out = std_instances(tier, seed)
+    out += axis_instances(tier)
     for cn in (['o1', 't1', 't3'] if tier == 'quick' else ['o1', 'o2', 't1', 't2', 't3', 't4', 'tr']):
         out.append(dict(name=f"window:{cn}", family='window', cell=cn, cost=30))
     return out
@@ -33,6 +34,8 @@ def instances(tier, seed):
 def body(ctx, p):
     if p['family'] == 'window':
         return window_body(ctx, p)
+    if p['family'] == 'axis':
+        return axis_body(ctx, p)
     R = run_find(ctx, p)
     check_complete(ctx, R)
 
